@@ -299,11 +299,17 @@ theorem interpFun_agree :
 
 /-- **iradon_torch = skimage iradon on the model**, for every sinogram, angle set (given or
 default), filter name and circle flag. -/
+theorem iradonOut_agree (sino : List (List ℝ)) (thetas : Option (List ℝ)) (name : FilterName) (circle : Bool)
+    (out : Nat) :
+    iradonTorchOut sino thetas name circle out = iradonSkOut sino thetas name circle out := by
+  unfold iradonTorchOut iradonSkOut
+  simp only [fourierFilter_agree name _ (le_trans (by norm_num) (paddedSize_ge _)), defaultTheta_agree,
+    interpFun_agree]
+
 theorem iradon_agree (sino : List (List ℝ)) (thetas : Option (List ℝ)) (name : FilterName) (circle : Bool) :
     iradonTorch sino thetas name circle = iradonSk sino thetas name circle := by
   unfold iradonTorch iradonSk
-  simp only [fourierFilter_agree name _ (le_trans (by norm_num) (paddedSize_ge _)), defaultTheta_agree,
-    interpFun_agree]
+  exact iradonOut_agree sino thetas name circle _
 
 
 theorem backprojAt_linear (interp : Nat → (Int → ℝ) → ℝ → ℝ)
